@@ -22,7 +22,11 @@ static const CellDef CELLS[] = {
     {"zero_abc",{{{0,1},{0,1},{0,1}}, {{0,1},{0,1},{0,1}}, {{0,1},{0,1},{0,1}}}},
 };
 inline const CellDef& cell_by_name(const std::string& n) { for (auto& c : CELLS) if (n == c.name) return c; throw std::runtime_error("unknown cell " + n); }
-inline std::string mstr(z3::model& m, const z3::expr& e) { std::ostringstream o; o << m.eval(e, true); return o.str(); }
+inline std::string mstr(z3::model& m, const z3::expr& e) {
+    z3::expr v = m.eval(e, true);
+    if (v.is_algebraic()) { std::string s = v.get_decimal_string(17); if (!s.empty() && s.back() == '?') s.pop_back(); return s; }   // irrational witness: decimal approximation
+    std::ostringstream o; o << v; return o.str();
+}
 inline std::string jesc(const std::string& s) { std::string o; for (char ch : s) { if (ch == '"' || ch == '\\') o += '\\'; if (ch == '\n') { o += "\\n"; continue; } o += ch; } return o; }
 struct Run {
     long paths = 0, aborted = 0, obligations = 0, discharged = 0, unknowns = 0, errors = 0, cex = 0;
